@@ -58,10 +58,18 @@ def normLeaf (S : Schema) (base : String) (v : GValue) : RVal :=
       | some .enum, .str s => .leaf (.enum s)
       | _, v => .leaf v
 
+mutual
 def normRV (S : Schema) (base : String) : RVal → RVal
   | .leaf v => normLeaf S base v
-  | .list xs => .list (xs.map (normRV S base))
-  | rv => rv
+  | .list xs => .list (normRVs S base xs)
+  | .null => .null
+  | .obj ty id => .obj ty id
+  | .fail m => .fail m
+  | .arg a => .arg a
+def normRVs (S : Schema) (base : String) : List RVal → List RVal
+  | [] => []
+  | x :: xs => normRV S base x :: normRVs S base xs
+end
 
 def specWorld (S : Schema) (w : World) : World :=
   { entries := w.entries.map (fun e =>
